@@ -375,6 +375,10 @@ pub const TEMPLATES: &[&str] = &[
     "thresh(1,multi(1,@0,@1),a:multi(1,@2,@3))",
     "and_v(v:pk(@0),or_d(pk(@1),older(10)))",
     "or_i(and_v(v:pk(@0),after(9)),and_v(v:pk(@1),after(500000001)))",
+    // seeded change C17-9: a dissatisfaction that carries a signature AND a time lock is the cheapest
+    // one in malleable mode (the signature-free dissatisfaction costs three key pushes), under or_d / or_c
+    "or_d(or_i(and_v(v:after(9),and_v(v:pk(@0),pk(@4))),and_b(pkh(@1),a:and_b(pkh(@2),a:pkh(@3)))),pk(@5))",
+    "t:or_c(or_i(and_v(v:older(10),and_v(v:pk(@0),pk(@4))),and_b(pkh(@1),a:and_b(pkh(@2),a:pkh(@3)))),v:pk(@5))",
 ];
 
 fn mk_tmpl<Ctx: ScriptContext>(w: &World, t: usize, tap: bool, sane: bool) -> Option<Miniscript<Key, Ctx>> {
@@ -801,6 +805,13 @@ pub fn key_masks(c: &Case, rng: &mut Rng) -> Vec<u32> {
                 }
             }
             masks.push(m);
+        }
+        // every pair that contains the last key (directed: one signer of an inner branch plus the
+        // key of the fallback branch); appended after the random masks so that those are unchanged
+        if let Some((&last, rest)) = c.keys.split_last() {
+            for &k in rest {
+                masks.push((1 << k) | (1 << last));
+            }
         }
     }
     masks
